@@ -52,8 +52,9 @@ type State struct {
 	held    map[string]bool // ghost: mutexes held (term -> bool)
 	ghost   map[string]string
 	depth   int
-	defers  []*ssa.Defer   // deferred calls of the top frame registered on this path
-	lastRes map[string]Val // result of the most recent call (on this path) of each named callee: lastresult(NAME)
+	defers  []*ssa.Defer     // deferred calls of the top frame registered on this path
+	outer   []map[string]Val // source-variable names of the enclosing frames while a callee is executed in place
+	lastRes map[string]Val   // result of the most recent call (on this path) of each named callee: lastresult(NAME)
 }
 
 func (s *State) clone() *State {
@@ -82,6 +83,7 @@ func (s *State) clone() *State {
 	for k, v := range s.ghost {
 		n.ghost[k] = v
 	}
+	n.outer = append([]map[string]Val(nil), s.outer...)
 	n.lastRes = make(map[string]Val, len(s.lastRes))
 	for k, v := range s.lastRes {
 		n.lastRes[k] = v
@@ -112,26 +114,28 @@ func copyNames(h map[string]Val) map[string]Val {
 
 // fnCtx is the verification context of one function under contract.
 type fnCtx struct {
-	e          *Engine
-	fn         *ssa.Function
-	key        string
-	pkg        string
-	spec       *FuncSpec
-	eff        *effSpec
-	loops      map[*ssa.BasicBlock]*loopInfo
-	paths      int
-	regionSort map[string]string
-	tparams    map[string]bool
-	safeMode   bool // runtime panics are obligations, not exceptional exits
-	nquery     int
-	aborted    string
-	closures   map[string]*closureInfo
-	interf     bool   // interference pass: only ipost / lockinv obligations are emitted
-	curFrame   *frame // call site whose callee effects are being applied (C19 write obligations)
-	curSite    string
-	freeCells  map[string]Val // captured variables (closure under verification): name -> cell address
-	top        *frame
-	exitHooks  []func(st *State, fr *frame, exceptional bool)
+	e           *Engine
+	fn          *ssa.Function
+	key         string
+	pkg         string
+	spec        *FuncSpec
+	eff         *effSpec
+	loops       map[*ssa.BasicBlock]*loopInfo
+	paths       int
+	regionSort  map[string]string
+	tparams     map[string]bool
+	safeMode    bool // runtime panics are obligations, not exceptional exits
+	nquery      int
+	aborted     string
+	closures    map[string]*closureInfo
+	orphanLoops map[int]*LoopSpec             // loop clauses of the contract that name no loop of the function body
+	adoptedBy   map[*ssa.BasicBlock]*LoopSpec // ... and the loop of an in-place callee each of them was attached to
+	interf      bool                          // interference pass: only ipost / lockinv obligations are emitted
+	curFrame    *frame                        // call site whose callee effects are being applied (C19 write obligations)
+	curSite     string
+	freeCells   map[string]Val // captured variables (closure under verification): name -> cell address
+	top         *frame
+	exitHooks   []func(st *State, fr *frame, exceptional bool)
 }
 
 type effClause struct {
